@@ -202,6 +202,24 @@ def gen_case(tp, tier):
         case = {'kind': kind, 'events': evs, 'knobs': kn,
                 'clock': tp.choice(['sys', 'tempo'])}
         if tp.draw(4) == 0:
+            # one event is played, some of its keys are changed, and the
+            # same object (or a copy of it) is played again
+            ev = tp.choice(evs)
+            # (playing writes the resolved freq, amp and sustain back into
+            # the event, as sclang does: only changes that do not go through
+            # those stored values have a specified effect)
+            if 'harmonic' not in ev and 'detune' not in ev:
+                ch = {}
+                for k, vals in (('amp', [0.3, 0.05]), ('pan', [-1.0, 0.25]),
+                                ('out', [4])):
+                    if tp.draw(2) == 0 and not (
+                            k == 'amp' and ('db' in ev or 'velocity' in ev)):
+                        ch[k] = tp.choice(vals)
+                if 'freq' in ev:
+                    ch['freq'] = ev['freq'] * 1.5
+                if ch:
+                    ev['_again'] = [ch, bool(tp.draw(2))]
+        if tp.draw(4) == 0:
             # the instrument 'user' is defined, used, defined again with
             # other controls and used again
             if len(evs) < 2:
@@ -560,6 +578,12 @@ def program(case, main, lookups):
                 lookups.append({k: float(e(k)) for k in
                                 ('freq', 'amp', 'delta', 'sustain')})
                 e.play()
+                if ev.get('_again'):
+                    changes, as_copy = ev['_again']
+                    e2 = e.copy() if as_copy else e
+                    for kk, v in changes.items():
+                        e2[kk] = v
+                    e2.play()
         else:
             for p in case['pats']:
                 if clock is not None:
@@ -643,6 +667,13 @@ def check_bundles(world, got, case, latency, viol, stats, rel, lo=1000,
         for ev in case['events']:
             e, r = expected_msgs(ev, T0, latency)
             exp.append((e, ev))
+            if ev.get('_again'):
+                ev2 = {k: v for k, v in ev.items() if k != '_again'}
+                ev2.update(ev['_again'][0])
+                e, r = expected_msgs(ev2, T0, latency)
+                exp.append((e, ev2))
+                stats['event-played-again'] = stats.get(
+                    'event-played-again', 0) + 1
     else:
         _CACHE.clear()
         for p in case['pats']:
